@@ -18,6 +18,14 @@ package main
 //	marker z (processors only) = the processor is LazyInit (embeds definition.LazyInitComponent): the registration loop of
 //	InvokeBeanFactoryPostProcessors appends it AS REGISTERED, at its sorted position, instead of asking the factory for it
 //
+//	marker w (processors only) = a DECORATING processor: its PostProcessAfterInitialization answers every post-processor
+//	component the factory creates after it (the eager processors later in the sorted registration loop) with a decorator
+//	that embeds nothing but the widest container post-processor interface the processor implements — so the instance that
+//	lands in componentPostProcessors (delegate:56-58 `processor = icp`) has neither Order() nor Priority() nor LazyInit().
+//	The decorator forwards every callback, so the logs still name the REGISTERED processor; the contract is judged by the
+//	registered processor's declared class and Order.  On the unchanged library a decorated processor stays at the position
+//	its registration earned (the registration loop appends inside the one walk over the sorted raw slice).
+//
 //	p = Priority()+Order(), o = Order() only, n = neither, q = Priority() without Order() (must land in the plain block)
 //
 // Observations never show the order inside a (class,key) tie group (sort.Slice is unstable).
@@ -38,6 +46,7 @@ import (
 	"github.com/go-kid/ioc/app"
 	"github.com/go-kid/ioc/configure"
 	"github.com/go-kid/ioc/configure/binder"
+	"github.com/go-kid/ioc/container"
 	"github.com/go-kid/ioc/container/processors"
 	"github.com/go-kid/ioc/container/support"
 	"github.com/go-kid/ioc/definition"
@@ -479,8 +488,35 @@ func ppBefore(b *sBase, c any, name string) (any, error) {
 	return c, nil
 }
 
+// decorators a `w` processor puts around the post-processors created after it: only the container interface is embedded
+// (like the library's own AOP example, unittest/component/post/t.go), so Order / Priority / LazyInit / Naming are NOT promoted
+type decoCPP struct {
+	container.ComponentPostProcessor
+}
+type decoInst struct {
+	container.InstantiationAwareComponentPostProcessor
+}
+type decoSmart struct {
+	container.SmartInstantiationAwareBeanPostProcessor
+}
+
+func decorate(c any) any {
+	switch p := c.(type) {
+	case container.SmartInstantiationAwareBeanPostProcessor:
+		return &decoSmart{p}
+	case container.InstantiationAwareComponentPostProcessor:
+		return &decoInst{p}
+	case container.ComponentPostProcessor:
+		return &decoCPP{p}
+	}
+	return c
+}
+
 func ppAfter(b *sBase, c any, name string) (any, error) {
 	if name != ordProbeName {
+		if b.tok.has('w') && strings.HasPrefix(name, "ordP") {
+			return decorate(c), nil
+		}
 		return c, nil
 	}
 	b.log.A = append(b.log.A, b.tok.id)
@@ -1220,6 +1256,12 @@ func startTags(ls, ps, rs []ordTok) []string {
 			tags = append(tags, "lazy-ahead-of-eager")
 		}
 	}
+	if anyMark(ps, "w") {
+		tags = append(tags, "decorating-processor")
+		if decoratedAhead(ps) {
+			tags = append(tags, "decorated-ahead-of-undecorated")
+		}
+	}
 	return tags
 }
 
@@ -1236,6 +1278,77 @@ func lazyAheadOfEager(ps []ordTok) bool {
 		}
 	}
 	return false
+}
+
+// strictlyBefore: the contract puts a strictly ahead of b (an earlier class block, or the same sorted block and a smaller Order)
+func strictlyBefore(a, b ordTok) bool {
+	return a.rank() < b.rank() || (a.rank() == b.rank() && a.rank() < 2 && a.key < b.key)
+}
+
+// decoratedAhead: some decorating processor (w) is strictly ahead of an eager ordered processor X — which the factory
+// therefore hands back decorated, without Order()/Priority() — and X is strictly ahead of an ordered LazyInit processor,
+// which is never decorated: the chain position of X must come from its REGISTERED class and Order
+func decoratedAhead(ps []ordTok) bool {
+	for _, d := range ps {
+		if !d.has('w') {
+			continue
+		}
+		for _, x := range ps {
+			if x.lazy() || x.rank() == 2 || !strictlyBefore(d, x) {
+				continue
+			}
+			for _, y := range ps {
+				if y.lazy() && strictlyBefore(x, y) {
+					return true
+				}
+			}
+		}
+	}
+	return false
+}
+
+// addDecorator: in 1/3 of the processor lists with at least two processors one processor becomes a DECORATING one (marker w).
+// Half of those lists are then arranged so that the decoration matters for the chain order: the decorator is priority-ordered
+// with the smallest Order, one other processor is eager and ordered / priority-ordered, a third one is LazyInit, ordered and
+// strictly behind it.  Stop markers survive only where the stopped prefix still does not depend on tie order.
+// Called after all three lists have been drawn, so the lists themselves are the same as without it.
+func addDecorator(r *hx.Rng, ps []ordTok) {
+	if len(ps) < 2 || !r.P(1, 3) {
+		return
+	}
+	i := r.Intn(len(ps))
+	ps[i].marks += "w"
+	if len(ps) >= 3 && r.P(1, 2) {
+		ps[i].cls, ps[i].key = 'p', math.MinInt64
+		j := r.Intn(len(ps) - 1)
+		if j >= i {
+			j++
+		}
+		k := r.Intn(len(ps) - 2) // the k-th index that is neither i nor j
+		for x := 0; x <= k; x++ {
+			if x == i || x == j {
+				k++
+			}
+		}
+		ps[j].marks = strings.ReplaceAll(ps[j].marks, "z", "")
+		ps[j].cls = []byte{'p', 'o'}[r.Intn(2)]
+		ps[j].key = r.Intn(7) - 3
+		if !ps[k].lazy() {
+			ps[k].marks = "z" + ps[k].marks
+		}
+		ps[k].cls = 'o'
+		ps[k].key = ps[j].key + 1 + r.Intn(3)
+		if ps[j].cls == 'p' && r.P(1, 2) {
+			ps[k].key = genKey(r, 0)
+		}
+	}
+	for x := range ps {
+		if strings.ContainsAny(ps[x].marks, "!?^~") && !(ps[x].rank() < 2 && uniqueCK(ps, x)) {
+			for _, m := range []string{"!", "?", "^", "~"} {
+				ps[x].marks = strings.ReplaceAll(ps[x].marks, m, "")
+			}
+		}
+	}
 }
 
 // contractSorted: does the sequence already satisfy the contract (classes in order, keys non-decreasing in the first two)?
@@ -1411,9 +1524,11 @@ func orderStartGen(rng *hx.Rng, n int, tier string, w *hx.Writer) {
 					ps[j].inst, ps[j].smart = true, true
 				}
 			}
+			addDecorator(r, ps)
 			runOrderStart(ls, ps, rs, true, append(startTags(ls, ps, rs), cycTags(ps)...), w)
 			continue
 		}
+		addDecorator(r, ps)
 		runOrderStart(ls, ps, rs, false, startTags(ls, ps, rs), w)
 	}
 }
@@ -1436,6 +1551,16 @@ func orderStartCorpus(w *hx.Writer) {
 		"L P n qz o3 ip2z io1z o2 p7 sp-1z in iqz R n",
 		"L o2+ P o1z o2 o3z^ o4 R p1",
 		"L P p3z p3 p4 p2z o0z? o1 n R n",
+		// a decorating processor (w): the eager processors created after it come back from the factory inside a decorator
+		// without Order()/Priority(); they keep the chain position their registration earned (C12G re-sorted the resolved chain)
+		"L P p-100w p5 o1 o50z n R",
+		"L P o1w o5 o9z R",
+		"L P p-100w ip5 so1 io50z n R",
+		"L P p-100wz ip5 o1^ io50z n qz R n",
+		"L o1+ P p-100w p-50w p5 o1? o50z n R p1",
+		"L P nw n o3 o2z R",
+		"SC L P p-100w sp5 so1 so50z sn R",
+		"SC L P so9z sp-9223372036854775808w so2 sp3 so1z sn R o1",
 		// early references: smart processors registered against the contract order (classes, Orders, extremes, ties)
 		"SC L P R",
 		"SC L P sn so5 sp70 R",
